@@ -2,7 +2,7 @@
 From Coq Require Import List Arith Bool Lia.
 Import ListNotations.
 From IT Require Import Sdpl.IR Sdpl.Elab Sdpl.Wf Runtime.Actor Runtime.ActorInv Runtime.InvDefs Runtime.InvDefs2 Runtime.InvSeq
-  Runtime.Combined Runtime.InvDrain.
+  Runtime.Combined Runtime.InvDrain Gen.Ctor.
 
 Section C04.
 Context {A V : Type} (sem : nat -> A -> list V -> option (A * V)) (sem_slf : nat -> A -> list V -> V) (dv : V).
@@ -47,6 +47,30 @@ Theorem C04_drain : forall (m : model), wf_C04 m = true ->
 Proof. intros m _. exact (drain sem sem_slf dv (elab m)). Qed.
 End C04.
 
+(* construction: the user's constructor runs exactly once with the handle constructor's arguments; when a fallible
+   constructor fails, its failure value is returned unchanged and no channel / thread was created; on success exactly one
+   channel and one thread exist *)
+Lemma cstmt_eqb_eq a b : cstmt_eqb a b = true -> a = b.
+Proof. destruct a, b; cbn; congruence. Qed.
+Lemma cstmts_eqb_eq a b : cstmts_eqb a b = true -> a = b.
+Proof.
+  revert b. induction a as [|x a IH]; intros [|y b] H; cbn in H; try discriminate; [reflexivity|].
+  apply andb_prop in H. destruct H as [H1 H2]. f_equal; [apply cstmt_eqb_eq; exact H1|apply IH; exact H2].
+Qed.
+Theorem C04_ctor_once : forall (m : model) c, wf_C04 m = true -> actor_ctor m = Some c ->
+  forall (A E : Type) (try_ : bool) (o : A + E),
+  match o with
+  | inl a => run_ctor try_ o (ctor_stmts c) = Built {| user_runs := 1; chans := 1; threads := 1; have_actor := Some a |}
+  | inr e => try_ = true -> run_ctor try_ o (ctor_stmts c) = Failed e {| user_runs := 1; chans := 0; threads := 0; have_actor := None |}
+  end.
+Proof.
+  intros m c W Hc A E try_ o. apply ctor_once.
+  unfold wf_C04 in W. apply andb_prop in W. destruct W as [_ W]. rewrite Hc in W.
+  unfold ctor_order_ok in W. apply andb_prop in W. destruct W as [W1 W2].
+  split; [apply cstmts_eqb_eq; exact W1|apply cstmt_eqb_eq; exact W2].
+Qed.
+
 Print Assumptions C04_once.
 Print Assumptions C04_exit_cause.
 Print Assumptions C04_drain.
+Print Assumptions C04_ctor_once.
